@@ -65,11 +65,119 @@ theorem poolConnect_quiet (me s : Nat) (pl : Pool) :
     · split <;> simp
   · simp
 
+/-- what every pool-level connect (succeeding or failing) guarantees when it starts from a record satisfying Inv1 -/
+structure GoodConnect (me : Nat) (pl : Pool) (r : Pool × Out) : Prop where
+  inv1 : ∀ c, r.1.con = some c → r.1.pidAttr = true ∧ r.1.pid = some c.creator
+  ret : ∀ c, r.2.returned = some c → c.creator = me ∧ r.1.con = some c
+  noattr : r.2.attrError = false
+  stmts : r.2.stmts = []
+  closed : ∀ c ∈ r.2.closed, c.creator = me
+  nostale : r.2.staleDisconnect = false
+  none : r.2.returned = none → (r.2.failed = true ∧ r.1.con = none) ∨ (r.2.failed = false ∧ r.1 = pl)
+
+theorem poolConnect_good (me s : Nat) (pl : Pool)
+    (h : ∀ c, pl.con = some c → pl.pidAttr = true ∧ pl.pid = some c.creator) : GoodConnect me pl (poolConnect me s pl) where
+  inv1 := poolConnect_inv1 me s pl h
+  ret := poolConnect_returned me s pl h
+  noattr := poolConnect_noattr me s pl h
+  stmts := (poolConnect_quiet me s pl).1
+  closed := by simp [(poolConnect_quiet me s pl).2.1]
+  nostale := (poolConnect_quiet me s pl).2.2
+  none := by
+    intro hr
+    right
+    unfold poolConnect at hr ⊢
+    split
+    · split
+      · simp
+      · split <;> simp_all
+    · simp_all
+
+theorem poolConnectFail_good (k : Kind) (i : Bool) (me s : Nat) (pl : Pool)
+    (h : ∀ c, pl.con = some c → pl.pidAttr = true ∧ pl.pid = some c.creator) :
+    GoodConnect me pl (poolConnectFail k i me s pl) := by
+  have hcl : ∀ c ∈ (if (i && decide (k ≠ Kind.base)) = true then [({ serial := s, creator := me } : Conn)] else []), c.creator = me := by
+    intro c hc; split at hc <;> simp_all
+  unfold poolConnectFail
+  cases hcon : pl.con with
+  | none =>
+    simp only
+    exact ⟨by simp [hcon], by simp, rfl, rfl, hcl, rfl, by simp [hcon]⟩
+  | some c0 =>
+    obtain ⟨ha, hp⟩ := h c0 hcon
+    simp only [ha, Bool.not_true, Bool.false_eq_true, if_false]
+    by_cases hne : pl.pid ≠ some me
+    · rw [if_pos hne]
+      exact ⟨by simp, by simp, rfl, rfl, hcl, rfl, by simp⟩
+    · rw [if_neg hne]
+      have hme : c0.creator = me := by
+        simp only [ne_eq, Decidable.not_not] at hne
+        rw [hp] at hne; exact Option.some.inj hne
+      exact ⟨by intro c hc; rw [hcon] at hc; cases hc; exact ⟨ha, hp⟩,
+             by intro c hc; simp at hc; subst hc; exact ⟨hme, hcon⟩, rfl, rfl, by simp, rfl, by simp⟩
+
+theorem poolConnectFail_failed (k : Kind) (i : Bool) (me s : Nat) (pl : Pool)
+    (hf : (poolConnectFail k i me s pl).2.failed = true) :
+    (poolConnectFail k i me s pl).1.con = none ∧ (poolConnectFail k i me s pl).2.returned = none := by
+  unfold poolConnectFail at hf ⊢
+  cases hcon : pl.con with
+  | none => simp
+  | some c0 =>
+    simp only [hcon] at hf ⊢
+    by_cases ha : pl.pidAttr = true
+    · by_cases hp : pl.pid = some me
+      · simp [ha, hp] at hf
+      · simp [ha, hp]
+    · simp [ha] at hf
+
+theorem sessConnect_pid (q : Proc) (f : Pool → Pool × Out) : (sessConnect q f).1.pid = q.pid := by
+  unfold sessConnect; split <;> rfl
+
+theorem sessConnect_inv1 (q : Proc) (f : Pool → Pool × Out) (h : Inv1 q) (g : GoodConnect q.pid q.pool (f q.pool)) :
+    Inv1 (sessConnect q f).1 := by
+  unfold sessConnect; split
+  · exact h
+  · exact g.inv1
+
+theorem sessConnect_returned (q : Proc) (f : Pool → Pool × Out) (g : GoodConnect q.pid q.pool (f q.pool)) :
+    ∀ c, (sessConnect q f).2.returned = some c → c.creator = q.pid := by
+  intro c
+  unfold sessConnect; split
+  · simp
+  · intro hc; exact (g.ret c hc).1
+
+theorem sessConnect_noattr (q : Proc) (f : Pool → Pool × Out) (g : GoodConnect q.pid q.pool (f q.pool)) :
+    (sessConnect q f).2.attrError = false := by
+  unfold sessConnect; split
+  · rfl
+  · exact g.noattr
+
+theorem sessConnect_inv2 (q : Proc) (f : Pool → Pool × Out) (h2 : Inv2 q) (g : GoodConnect q.pid q.pool (f q.pool)) :
+    Inv2 (sessConnect q f).1 ∧ (∀ c ∈ (sessConnect q f).2.stmts, c.creator = q.pid)
+      ∧ (∀ c ∈ (sessConnect q f).2.closed, c.creator = q.pid) := by
+  obtain ⟨hh, hf⟩ := h2
+  unfold sessConnect; split
+  · exact ⟨⟨hh, hf⟩, by simp, by simp⟩
+  · refine ⟨⟨?_, ?_⟩, by simp [g.stmts], g.closed⟩
+    · intro c hc; exact (g.ret c hc).1
+    · intro hfresh c hc
+      simp only at hc hfresh
+      cases hr : (f q.pool).2.returned with
+      | some r =>
+        have := g.ret r hr
+        rw [this.2] at hc; cases hc; exact this.1
+      | none =>
+        rcases g.none hr with ⟨_, hnone⟩ | ⟨hnf, hsame⟩
+        · rw [hnone] at hc; cases hc
+        · simp [hr, hnf] at hfresh
+          rw [hsame] at hc
+          exact hf hfresh c hc
+
 theorem localStep_pid (k : Kind) (s : Nat) (q : Proc) (a : Act) : (localStep k s q a).1.pid = q.pid := by
   cases a <;> simp only [localStep]
-  · split
-    · rfl
-    · rfl
+  · exact sessConnect_pid _ _
+  · exact sessConnect_pid _ _
+  · exact sessConnect_pid _ _
   · split <;> rfl
   · split
     · rfl
@@ -84,11 +192,11 @@ theorem localStep_pid (k : Kind) (s : Nat) (q : Proc) (a : Act) : (localStep k s
     · split <;> rfl
 
 theorem localStep_inv1 (k : Kind) (s : Nat) (q : Proc) (a : Act) (h : Inv1 q) : Inv1 (localStep k s q a).1 := by
-  unfold Inv1 at *
   cases a <;> simp only [localStep]
-  · split
-    · exact h
-    · exact poolConnect_inv1 q.pid s q.pool h
+  · exact sessConnect_inv1 _ _ h (poolConnect_good _ _ _ h)
+  · exact sessConnect_inv1 _ _ h (poolConnectFail_good _ _ _ _ _ h)
+  · exact sessConnect_inv1 _ _ h (poolConnectFail_good _ _ _ _ _ h)
+  all_goals unfold Inv1 at *
   · split <;> exact h
   · split
     · exact h
@@ -110,9 +218,9 @@ theorem localStep_returned (k : Kind) (s : Nat) (q : Proc) (a : Act) (h : Inv1 q
     ∀ c, (localStep k s q a).2.returned = some c → c.creator = q.pid := by
   intro c
   cases a <;> simp only [localStep]
-  · split
-    · simp
-    · intro hc; exact (poolConnect_returned q.pid s q.pool h c hc).1
+  · exact sessConnect_returned _ _ (poolConnect_good _ _ _ h) c
+  · exact sessConnect_returned _ _ (poolConnectFail_good _ _ _ _ _ h) c
+  · exact sessConnect_returned _ _ (poolConnectFail_good _ _ _ _ _ h) c
   · split <;> simp
   · split
     · simp
@@ -129,9 +237,9 @@ theorem localStep_returned (k : Kind) (s : Nat) (q : Proc) (a : Act) (h : Inv1 q
 theorem localStep_noattr (k : Kind) (s : Nat) (q : Proc) (a : Act) (h : Inv1 q) :
     (localStep k s q a).2.attrError = false := by
   cases a <;> simp only [localStep]
-  · split
-    · rfl
-    · exact poolConnect_noattr q.pid s q.pool h
+  · exact sessConnect_noattr _ _ (poolConnect_good _ _ _ h)
+  · exact sessConnect_noattr _ _ (poolConnectFail_good _ _ _ _ _ h)
+  · exact sessConnect_noattr _ _ (poolConnectFail_good _ _ _ _ _ h)
   · split <;> rfl
   · split
     · rfl
@@ -145,44 +253,18 @@ theorem localStep_noattr (k : Kind) (s : Nat) (q : Proc) (a : Act) (h : Inv1 q) 
     · rfl
     · split <;> rfl
 
-/-- under discipline G2 (no disconnect before the first connect after a fork) ownership is preserved and everything the
-    step touches (statements, close calls) is a connection of the acting process -/
+/-- under discipline G2 (no disconnect before the first connect attempt after a fork) ownership is preserved and everything
+    the step touches (statements, close calls) is a connection of the acting process -/
 theorem localStep_inv2 (k : Kind) (s : Nat) (q : Proc) (a : Act) (h1 : Inv1 q) (h2 : Inv2 q)
     (hg : (localStep k s q a).2.staleDisconnect = false) :
     Inv2 (localStep k s q a).1 ∧ (∀ c ∈ (localStep k s q a).2.stmts, c.creator = q.pid)
       ∧ (∀ c ∈ (localStep k s q a).2.closed, c.creator = q.pid) := by
-  obtain ⟨hh, hf⟩ := h2
-  cases a <;> simp only [localStep] at hg ⊢
-  · -- connect
-    split
-    · exact ⟨⟨hh, hf⟩, by simp, by simp⟩
-    · rename_i hnone
-      have hq := poolConnect_quiet q.pid s q.pool
-      refine ⟨⟨?_, ?_⟩, by simp [hq.1], by simp [hq.2.1]⟩
-      · intro c hc
-        exact (poolConnect_returned q.pid s q.pool h1 c hc).1
-      · intro hfresh c hc
-        simp only [Bool.or_eq_true] at hfresh
-        cases hr : (poolConnect q.pid s q.pool).2.returned with
-        | some r =>
-          have := poolConnect_returned q.pid s q.pool h1 r hr
-          simp only at hc
-          rw [this.2] at hc
-          cases hc
-          exact this.1
-        | none =>
-          -- nothing returned: the pool is unchanged (cannot happen under Inv1, but no need to know)
-          simp [hr] at hfresh
-          have : (poolConnect q.pid s q.pool).1 = q.pool := by
-            unfold poolConnect at hr ⊢
-            split
-            · split
-              · rfl
-              · split <;> simp_all
-            · simp_all
-          simp only at hc
-          rw [this] at hc
-          exact hf hfresh c hc
+  cases a
+  · exact sessConnect_inv2 _ _ h2 (poolConnect_good _ _ _ h1)
+  · exact sessConnect_inv2 _ _ h2 (poolConnectFail_good _ _ _ _ _ h1)
+  · exact sessConnect_inv2 _ _ h2 (poolConnectFail_good _ _ _ _ _ h1)
+  all_goals obtain ⟨hh, hf⟩ := h2
+  all_goals simp only [localStep] at hg ⊢
   · -- stmt
     split
     · rename_i c hc
